@@ -246,7 +246,7 @@ func main() {
 
 	// watchdog: a harness that does not finish is reported, never silently green
 	go func() {
-		time.Sleep(time.Duration(f.Scale(480, 5400)) * time.Second)
+		time.Sleep(time.Duration(f.Scale(1500, 7200)) * time.Second)
 		res.Fatalf("watchdog: the harness did not finish within its own time limit")
 		lib.Finish(f, res)
 	}()
